@@ -104,6 +104,18 @@ def subharnesses(tier):
                                 restart_between=True)
                     subs.append(('%s-%s-then-%s-restart' % (
                         sname, ev[0] + str(ev[1]), ev2[0]), spec))
+    # an instance is unscheduled while an 'apps' event naming it is queued;
+    # the master handles the event before (or after) the /scheduled watch
+    stores = dict(_stores(tier))
+    for sname in ('r0_1', 'ig'):
+        for order in ('event_first', 'watch_first'):
+            evs = [['unschedule_silently', 0]]
+            evs += [['apps_event', [0, 1]], ['scheduled_watch']] \
+                if order == 'event_first' else \
+                [['scheduled_watch'], ['apps_event', [0, 1]]]
+            spec = dict(stores[sname], nservers=2, events=evs)
+            subs.append(('%s-unscheduled_with_apps_event-%s' % (sname, order),
+                         spec))
     return subs
 
 
